@@ -98,6 +98,14 @@ def used_fields_check(ctx, ex):
         cases.append(([t], "enum X<T: K, U, V> { A(Option<U>, #[%s(key = k(&$))] Option<T>), B { #[%s(ignore)] a: Vec<T>, b: Box<V>, #[%s(key = k(&$))] c: Vec<T> } }" % (a, a, a), {t: ["Option<U>", "Box<V>"]}))
     cases.append((["Debug"], "struct X<T, U, V>(Option<U>, #[debug(ignore)] Option<T>, Box<V>, #[debug(ignore)] Vec<T>);", {"Debug": ["Option<U>", "Box<V>"]}))
     cases.append((["Default"], "struct X<T, U, V> { b: Option<U>, #[default(None)] a: Option<T>, c: Box<V>, #[default(Vec::new())] d: Vec<T> }", {"Default": ["Option<U>", "Box<V>"]}))
+    # a helper attribute only concerns the traits it belongs to: the other traits derived alongside still use (and bound) the field
+    both = ["Option<T>", "Option<U>"]
+    cases.append((["Debug", "Clone"], "struct X<T, U> { #[debug(ignore)] a: Option<T>, b: Option<U> }", {"Debug": ["Option<U>"], "Clone": both}))
+    cases.append((["Clone", "Debug", "Copy"], "enum X<T, U> { A(#[debug(ignore)] Option<T>, Option<U>), B }", {"Debug": ["Option<U>"], "Clone": both, "Copy": both}))
+    cases.append((["Debug", "Default"], "struct X<T, U>(#[debug(ignore)] Option<T>, #[debug(transparent)] Option<U>);", {"Debug": ["Option<U>"], "Default": both}))
+    cases.append((["Default", "Clone", "Debug"], "struct X<T, U> { #[default(None)] a: Option<T>, b: Option<U> }", {"Default": ["Option<U>"], "Clone": both, "Debug": both}))
+    cases.append((["PartialEq", "Clone", "Hash"], "struct X<T: K, U> { #[eq(ignore)] a: Option<T>, b: Option<U> }", {"PartialEq": ["Option<U>"], "Clone": both, "Hash": ["Option<U>"]}))
+    cases.append((["Hash", "Debug", "Clone"], "enum X<T: K, U> { A { #[hash(key = k(&$))] a: Option<T>, #[debug(ignore)] b: Option<U> } }", {"Hash": ["Option<U>"], "Debug": ["Option<T>"], "Clone": both}))
     for traits, item, exp in cases:
         r = ex.attr(", ".join(traits), item)
         n += 1
@@ -113,6 +121,19 @@ def used_fields_check(ctx, ex):
             if got.get(t) != want:
                 ctx.violation("B:C03:used:%s:%s" % (t, item), "default bounds for %s are %s, the statement's rule gives %s" % (t, got.get(t), want),
                               {"layer": "B", "item": item, "args": ", ".join(traits), "expected": want, "got": got.get(t)})
+    # the same for operators (several impls per trait, each with its own owned / reference form of the bound)
+    opcases = [(["Debug", "Neg"], "struct X<T, U> { #[debug(ignore)] a: Option<T>, b: Option<U> }", "Neg", both),
+               (["Add", "Debug", "SubAssign"], "struct X<T, U>(#[debug(ignore)] Option<T>, Option<U>);", "Add", both),
+               (["Add", "Debug", "SubAssign"], "struct X<T, U>(#[debug(ignore)] Option<T>, Option<U>);", "SubAssign", both),
+               (["Default", "Not"], "struct X<T, U> { #[default(None)] a: Option<T>, b: Option<U> }", "Not", both)]
+    for traits, item, t, tys in opcases:
+        r = ex.attr(", ".join(traits), item)
+        n += 1
+        got = sorted(sorted(BF.norm(w) for w in i["where"]) for i in (r.get("items") or []) if i["kind"] == "impl" and BF.norm(i.get("trait", "")).startswith(BF.norm(P(t))))
+        want = sorted(sorted(BF.norm(form(ty)) for ty in tys) for form in BF.impl_forms(t))
+        if got != want:
+            ctx.violation("B:C03:used:%s:%s" % (t, item), "default bounds of the %s impls are %s, the statement's rule gives %s" % (t, got, want),
+                          {"layer": "B", "item": item, "args": ", ".join(traits), "expected": want, "got": got})
     return n
 
 
